@@ -29,6 +29,17 @@ class Boom(Exception):
     pass
 
 
+class _Gen:
+    """A callable value generator for a Dynamic (Number) parameter."""
+
+    def __init__(self):
+        self.n = 0
+
+    def __call__(self):
+        self.n += 1
+        return float(self.n)
+
+
 class Rec:
     """Obligations of one watcher accumulated while batched."""
 
@@ -80,7 +91,9 @@ class Run:
         self.rng = rng
         self.feats = feats
         self.level = level
-        cls = type(f'W{idx}', (param.Parameterized,), {n: param.Parameter() for n in NAMES})
+        ns = {n: param.Parameter() for n in NAMES}
+        ns['dyn'] = param.Number(default=0.5)       # may hold a value generator; never watched, only triggered
+        cls = type(f'W{idx}', (param.Parameterized,), ns)
         self.cls = cls
         self.o = cls() if level == 'instance' else cls
         self.model = {}
@@ -593,6 +606,8 @@ class Run:
             n = rng.choice(NAMES)
             if rng.random() < 0.25:
                 return ('setsame', (n, 'value'))
+            if rng.random() < 0.2:
+                return ('setvary', (n, 'value'))      # a value closely related to the current one (decided at run time)
             return ('set', (n, 'value'), V.pool(rng))
         if c < 0.5 and 'slots' in F:
             return ('set', (rng.choice(NAMES), rng.choice(SLOTS)), rng.choice(['d1', 'd2', 1.0, 2.0, None, 0.5]))
@@ -619,6 +634,8 @@ class Run:
             self.do_set(op[1], op[2])
         elif k == 'setsame':
             self.do_set(op[1], self.model[op[1]])
+        elif k == 'setvary':
+            self.do_set(op[1], V.vary(self.model[op[1]], self.rng))
         elif k == 'batch':
             c = dict(kind='batch')
             self.ctx.append(c)
@@ -680,12 +697,22 @@ class Run:
             if not self.batched():
                 self.close_all()
             before = dict(self.model)
+            names = list(op[1])
+            gen = None
+            if self.rng.random() < 0.3:
+                # also trigger a dynamic parameter that currently holds a value generator: trigger must not replace it
+                gen = _Gen()
+                self.o.dyn = gen
+                names.insert(self.rng.randrange(len(names) + 1), 'dyn')
+                self.stats['dynamic_triggers'] = self.stats.get('dynamic_triggers', 0) + 1
             self.trigger_active += 1
-            self.log('trigger', op[1])
+            self.log('trigger', names)
             try:
-                self.o.param.trigger(*op[1])
+                self.o.param.trigger(*names)
             finally:
                 self.trigger_active -= 1
+            if gen is not None and self.o.param.get_value_generator('dyn') is not gen:
+                self.err('trigger-altered-value', f'dyn held a value generator before trigger({names}), now {self.o.param.get_value_generator("dyn")!r}')
             for key in self.model:
                 if self.model[key] is before[key] and self.current(key) is not before[key]:
                     self.err('trigger-altered-value', f'{key} changed by trigger({op[1]})')
@@ -764,7 +791,7 @@ def _prog_shape(prog):
             out.append((op[0], len(op[1]), _prog_shape(op[2])))
         elif op[0] == 'update':
             out.append((op[0], len(op[1])))
-        elif op[0] in ('set', 'setsame'):
+        elif op[0] in ('set', 'setsame', 'setvary'):
             out.append((op[0], op[1][1]))
         else:
             out.append(op[0])
